@@ -314,3 +314,107 @@ func shortStrings(alphabet string, maxLen int) []string {
 	}
 	return out
 }
+
+// foldLoop executes a counted loop concretely over folded values: per iteration the feasible iteration path is selected by folding
+// its conditions, and the loop-carried integer variables are updated from the path's final environment; then the post statement.
+// Returns the values of the loop-carried variables after the loop. Effects inside the loop are not allowed (pure counting loops).
+func (c *Ctx) foldLoop(l *LoopRec, hook func(Term) (sval, bool), limit int) (map[types.Object]sval, string) {
+	if l.For == nil || l.CondT == nil {
+		return nil, "not a counted loop"
+	}
+	state := map[types.Object]sval{}
+	for o, t := range l.Init {
+		e := &strEnv{hook: hook}
+		v, ok := e.val(t)
+		if !ok {
+			return nil, "loop initialiser cannot be folded: " + e.fail
+		}
+		state[o] = v
+	}
+	h := func(t Term) (sval, bool) {
+		if lv, ok := t.(TLoop); ok && lv.ID == l.ID {
+			if v, ok := state[lv.Obj]; ok {
+				return v, true
+			}
+		}
+		return hook(t)
+	}
+	for it := 0; it < limit; it++ {
+		e := &strEnv{hook: h}
+		cv, ok := e.val(l.CondT)
+		if e.panic != "" {
+			return nil, e.panic
+		}
+		if !ok || cv.K != 'b' {
+			return nil, "loop condition cannot be folded: " + e.fail
+		}
+		if !cv.B {
+			return state, ""
+		}
+		var sel *Path
+		for _, ip := range l.Iter {
+			feasible := true
+			for _, st := range ip.Steps {
+				switch st.Kind {
+				case "cond":
+					e2 := &strEnv{hook: h}
+					v, ok := e2.val(st.Cond.T)
+					if e2.panic != "" {
+						return nil, e2.panic
+					}
+					if !ok || v.K != 'b' {
+						return nil, "condition inside the loop cannot be folded: " + e2.fail
+					}
+					if v.B != st.Cond.Truth {
+						feasible = false
+					}
+				default:
+					return nil, "effect inside a folded loop"
+				}
+				if !feasible {
+					break
+				}
+			}
+			if feasible {
+				if sel != nil {
+					return nil, "two feasible iteration paths"
+				}
+				sel = ip
+			}
+		}
+		if sel == nil || (sel.End != "fall" && sel.End != "continue") {
+			return nil, "no continuing iteration path"
+		}
+		next := map[types.Object]sval{}
+		for o := range state {
+			if t, ok := sel.Env[o]; ok {
+				e3 := &strEnv{hook: h}
+				v, ok := e3.val(t)
+				if !ok {
+					return nil, "loop variable update cannot be folded: " + e3.fail
+				}
+				next[o] = v
+			} else {
+				next[o] = state[o]
+			}
+		}
+		state = next
+		// post statement on integers
+		if l.Post != nil {
+			ints := map[types.Object]int64{}
+			for o, v := range state {
+				if v.K == 'i' {
+					ints[o] = v.I
+				}
+			}
+			sim := &loopSim{c: c, l: l, state: ints}
+			if !sim.post() {
+				return nil, sim.why
+			}
+			for o, v := range sim.state {
+				state[o] = sval{K: 'i', I: v}
+			}
+		}
+	}
+	return nil, "loop does not terminate within the folding limit"
+}
